@@ -30,9 +30,12 @@ def sh(cmd, cwd=None, env=None, timeout=None, stdin=None, stdout=None):
     if env:
         e.update(env)
     t0 = time.time()
-    p = subprocess.run(cmd, cwd=cwd, env=e, timeout=timeout, stdin=stdin,
-                       stdout=stdout if stdout is not None else subprocess.PIPE,
-                       stderr=subprocess.STDOUT if stdout is None else subprocess.PIPE, text=True)
+    try:
+        p = subprocess.run(cmd, cwd=cwd, env=e, timeout=timeout, stdin=stdin,
+                           stdout=stdout if stdout is not None else subprocess.PIPE,
+                           stderr=subprocess.STDOUT if stdout is None else subprocess.PIPE, text=True)
+    except subprocess.TimeoutExpired:
+        return 124, f"timed out after {timeout} s: {' '.join(cmd)[:200]}", time.time() - t0
     out = p.stdout if stdout is None else (p.stderr or "")
     return p.returncode, out or "", time.time() - t0
 
@@ -284,6 +287,14 @@ def main():
                           "--seed", str(seed), "--out", sdir], timeout=7200)
         timings[f"vh_{st}_s"] = round(dt, 2)
         note(f"== vh {st} == rc={rc}\n" + out[-3000:])
+        hang = os.path.join(sdir, "hang.json")
+        if rc == 3 and os.path.exists(hang):
+            # the harness watchdog ended the stream: one call into the implementation did not return
+            v = json.load(open(hang))
+            v.update({"line": 0, "stream": st, "sdir": sdir, "hang": True})
+            oracle_violations.append(v)
+            os.remove(hang)
+            continue
         if rc != 0 or not os.path.exists(os.path.join(sdir, "report.json")):
             problems.append(("correspondence", f"harness stream {st} aborted (rc={rc}): {out.strip()[-400:]}"))
             continue
